@@ -29,12 +29,29 @@ def gen_case(rng):
         scope = {"StartAt": "G", "States": {"G": pre, "T": t}}
     else:
         scope = {"StartAt": "T", "States": {"T": t}}
+    data = {"k": [7]}
     if kind == "Parallel":
         st = {"Type": "Parallel", "Branches": [scope], "End": True, "Retry": outer}
+    elif rng.random() < 0.6:
+        # a Map in batches whose failing item sits in any batch (the re-entry event of a later batch must carry the Map's
+        # own retry count, not lose it nor adopt that of the Task that completed the previous batch): a Choice sends the one
+        # bad item to the failing task, the others to a Pass or to a task that is retried once and then succeeds
+        k = rng.randint(2, 4)
+        items = list(range(1, k + 1))
+        bad = rng.choice(items)
+        ok = ({"Type": "Pass", "End": True} if rng.random() < 0.5 else
+              {"Type": "Task", "Resource": FN + "g", "End": True,
+               "Retry": [{"ErrorEquals": ["States.ALL"], "IntervalSeconds": 1, "MaxAttempts": 2, "BackoffRate": 1.0}]})
+        states = dict(scope["States"], C={"Type": "Choice", "Choices": [{"Variable": "$", "NumericEquals": bad, "Next": scope["StartAt"]}],
+                                           "Default": "OK"}, OK=ok)
+        st = {"Type": "Map", "ItemsPath": "$.k", "MaxConcurrency": rng.choice([1, 1, 2, 3]), "Iterator": {"StartAt": "C", "States": states},
+              "End": True, "Retry": outer}
+        data = {"k": items}
+        kind = "Map-batches"
     else:
         st = {"Type": "Map", "ItemsPath": "$.k", "MaxConcurrency": rng.choice([0, 1]), "Iterator": scope, "End": True, "Retry": outer}
     m = {"StartAt": "S", "States": {"S": st}}
-    return {"kind": kind, "machine": m, "input": {"k": [7]}, "err": err, "inner": inner, "outer": outer,
+    return {"kind": kind, "machine": m, "input": data, "err": err, "inner": inner, "outer": outer,
             "plans": {"f": [("err", err, "m")], "g": [("err", "G.Err", "m"), ("ok",)]}}
 
 
@@ -57,7 +74,7 @@ def granted(retriers, err, cache={}):
 def run(chk, n):
     for _ in range(n):
         c = gen_case(chk.rng)
-        r = enginerun.run_case(c["machine"], c["input"], {k: [tuple(o) for o in v] for k, v in c["plans"].items()}, max_steps=20000)
+        r = enginerun.run_case(c["machine"], c["input"], {k: [tuple(o) for o in v] for k, v in c["plans"].items()}, max_steps=6000)
         reqs = len([q for q in r.requests if q["queue"] == "f"])
         status, error, errors = r.status, r.error, list(r.errors)
         r.sim.close()
@@ -80,7 +97,7 @@ def run(chk, n):
 
 
 def replay_case(c):
-    r = enginerun.run_case(c["machine"], c["input"], {k: [tuple(o) for o in v] for k, v in c["plans"].items()}, max_steps=20000)
+    r = enginerun.run_case(c["machine"], c["input"], {k: [tuple(o) for o in v] for k, v in c["plans"].items()}, max_steps=6000)
     print("impl : status", r.status, r.error, "task requests", len([q for q in r.requests if q["queue"] == "f"]),
           "at", [q["t"] for q in r.requests if q["queue"] == "f"])
     r.sim.close()
